@@ -91,9 +91,11 @@ pub type Snap = BTreeMap<String, Node>;
 /// lstat-walk of everything below `base` (not following links). Keys are paths relative to base ("" = base).
 pub fn snapshot(base: &str) -> MResult<Snap> {
     let mut m = Snap::new();
-    fn walk(base: &str, rel: &str, m: &mut Snap) -> MResult<()> {
+    let base_dev = lstat(base).map(|s| s.dev).unwrap_or(0);
+    fn walk(base: &str, rel: &str, m: &mut Snap, base_dev: u64) -> MResult<()> {
         let full = if rel.is_empty() { base.to_string() } else { format!("{}/{}", base, rel) };
         let st = match lstat(&full) { Some(s) => s, None => return Ok(()) };
+        if st.dev != base_dev { return Ok(()); } // never cross into another mount (the jail's /proc)
         let body = if st.is_lnk() { readlink(&full) } else { None };
         m.insert(rel.to_string(), Node {
             typ: st.fmt_type().into(), perm: st.mode & 0o7777, uid: st.uid, gid: st.gid, nlink: st.nlink,
@@ -105,12 +107,12 @@ pub fn snapshot(base: &str) -> MResult<Snap> {
             names.sort();
             for n in names {
                 let r = if rel.is_empty() { n } else { format!("{}/{}", rel, n) };
-                walk(base, &r, m)?;
+                walk(base, &r, m, base_dev)?;
             }
         }
         Ok(())
     }
-    walk(base, "", &mut m)?;
+    walk(base, "", &mut m, base_dev)?;
     Ok(m)
 }
 
